@@ -22,7 +22,7 @@ func init() {
 		Level: "exploration",
 		Rule: "Reference-model monitor on the public API: a sequential inode-identity model (inode -> first cleaned spelling; re-pointed listed path moves; watch ends when the inode is deleted or renamed) is run next to the real Watcher; " +
 			"after EVERY step WatchList (as a multiset) and the result class (nil / ErrNonExistentWatch / some error) are compared, panics are caught, and each sequence ends by probing every listed path (one chmod => exactly one Chmod event under the listed spelling), removing everything listed and requiring zero kernel marks. " +
-			"Quick: ALL sequences of length <=3 over a 24-letter alphabet (11 Adds incl. failing ones, 6 Removes, 7 filesystem steps) and over an 8-letter alphabet of names ending in '...' (missing, a file, a directory; an ordinary name while recursion is off); thorough adds all sequences of length <=4 over 14 letters and of length <=3 over 45 letters; " +
+			"Quick: ALL sequences of length <=3 over a 24-letter alphabet (11 Adds incl. failing ones, 6 Removes, 7 filesystem steps) and over an 11-letter alphabet of special names: ending in '...' (missing, a file, a directory; an ordinary name while recursion is off) and containing a NUL byte (cannot exist); thorough adds all sequences of length <=4 over 14 letters and of length <=3 over 45 letters; " +
 			"plus the same re-pointing templates with the READER HELD BACK (no barrier between the filesystem step and the re-Add), strace-injected ENOSPC on inotify_add_watch (a failed Add must change nothing), " +
 			"plus PRNG sequences of length <=30 and the re-pointing templates (retarget / replace-by-rename / recreate-while-linked then re-Add). Plus the replace race (4 Watchers in parallel, hundreds of iterations each: delete or rename away the watched file, create a new one under the name, Add it again while an Add spammer and WatchList pollers contend for the lock and the reader works through the old file's notifications; after a sentinel barrier the file must be listed, backed by exactly one kernel mark and report one Chmod). distinct_nontrivial = distinct sequences containing >=1 successful Add and >=2 different op kinds",
 		Assumptions: []string{"stat(2) identifies the file a path names; a watched inode is 'deleted' when its last link goes while no descriptor is open (the driver holds none here)", "every filesystem step is followed by a sentinel barrier (strict schedule)"},
@@ -39,7 +39,7 @@ type c4op struct {
 }
 
 func (o c4op) String() string {
-	a := o.Arg
+	a := strings.ReplaceAll(o.Arg, "\x00", `\x00`)
 	if len(a) > 48 {
 		a = a[:20] + "…" + a[len(a)-20:]
 	}
@@ -116,9 +116,10 @@ func c4alphabet(base string, size int) []c4op {
 		{"rm", "f"}, {"rm", abs("f")}, {"rm", "lf"}, {"rm", "d"}, {"rm", "ld"}, {"rm", "h"},
 		{"fs", "unlink f"}, {"fs", "mv f f2"}, {"fs", "mv g f"}, {"fs", "retarget lf g"}, {"fs", "recreate f"}, {"fs", "rmdir d"}, {"fs", "mv d d2"},
 	}
-	if size == 8 { // names whose last component is "..." (an ordinary name while recursion is off), "..", "."
+	if size == 8 { // names whose last component is "..." (an ordinary name while recursion is off), and names with a NUL byte (no such file can exist)
 		return []c4op{{"add", "d"}, {"add", "d/..."}, {"add", "..."}, {"add", "d3/..."}, {"add", "d/../..."},
-			{"rm", "d/..."}, {"rm", "..."}, {"rm", "d"}}
+			{"add", "d/a\x00b"}, {"add", "f\x00"},
+			{"rm", "d/..."}, {"rm", "..."}, {"rm", "d"}, {"rm", "d/a\x00b"}}
 	}
 	if size <= 14 {
 		return []c4op{{"add", "f"}, {"add", abs("f")}, {"add", "lf"}, {"add", "h"}, {"add", "g"}, {"add", "d"},
